@@ -34,8 +34,24 @@ class FaultKey(Fault, KeyError): pass
 class FaultOS(Fault, OSError): pass
 class FaultAttr(Fault, AttributeError): pass
 class FaultLookup(Fault, LookupError): pass
-FAULT_CLASSES = {None: Fault, "Fault": Fault, "ValueError": FaultValue, "TypeError": FaultType, "KeyError": FaultKey, "OSError": FaultOS, "AttributeError": FaultAttr,
-                 "LookupError": FaultLookup}
+def _db_fault():
+    from django.db import OperationalError
+
+    class FaultDB(Fault, OperationalError):
+        pass
+    return FaultDB
+
+
+class _LazyFaults(dict):
+    def __missing__(self, k):
+        if k == "DatabaseError":          # django.db.OperationalError, as a database that is down raises it
+            self[k] = _db_fault()
+            return self[k]
+        raise KeyError(k)
+
+
+FAULT_CLASSES = _LazyFaults({None: Fault, "Fault": Fault, "ValueError": FaultValue, "TypeError": FaultType, "KeyError": FaultKey, "OSError": FaultOS, "AttributeError": FaultAttr,
+                 "LookupError": FaultLookup})
 
 
 class Clock:
@@ -390,6 +406,10 @@ class OpenIDCodeExt(oidc_grants.OpenIDCode):
     def get_jwt_config(self, grant):
         return self.store.jwt if getattr(self.store, "jwt_shared", False) else dict(self.store.jwt)
 
+    def get_audiences(self, request):
+        # (an integrator may name the audience as one string: a JWT `aud` is a string or a list of strings)
+        return request.client.get_client_id() if getattr(self.store, "aud_str", False) else super().get_audiences(request)
+
     def generate_user_info(self, user, scope):
         return UserInfo(sub=str(user.get_user_id()))
 
@@ -406,6 +426,9 @@ class OIDCImplicit(oidc_grants.OpenIDImplicitGrant):
 
     def get_jwt_config(self):
         return self.server.store.jwt if getattr(self.server.store, "jwt_shared", False) else dict(self.server.store.jwt)
+
+    def get_audiences(self, request):
+        return request.client.get_client_id() if getattr(self.server.store, "aud_str", False) else super().get_audiences(request)
 
     def generate_user_info(self, user, scope):
         return UserInfo(sub=str(user.get_user_id()))
@@ -425,6 +448,9 @@ class OIDCHybrid(oidc_grants.OpenIDHybridGrant):
 
     def get_jwt_config(self):
         return self.server.store.jwt if getattr(self.server.store, "jwt_shared", False) else dict(self.server.store.jwt)
+
+    def get_audiences(self, request):
+        return request.client.get_client_id() if getattr(self.server.store, "aud_str", False) else super().get_audiences(request)
 
     def generate_user_info(self, user, scope):
         return UserInfo(sub=str(user.get_user_id()))
